@@ -38,7 +38,9 @@ correspondence driver only ever applies `step?`, so every state the driver reach
   come first served like tokio's fair semaphore); `recv` frees the slot before the command is written (`wcur`), so one
   command can be in the writer's hands and one in the slot. A cancelled `reserve` leaves no trace.
 * the transport takes a frame whole or not at all (`wdo` is enabled iff fewer than `txLimit` bytes have been written);
-  when it does not, what was written before becomes visible to the peer (`wblock`). This is the in-memory transport of
+  while a limit is set (a bounded pipe) a written frame is visible to the peer at once, without one (the noise stream,
+  which buffers) only after a flush; when the transport does not take a frame, what was written before becomes
+  visible (`wblock`). This is the in-memory transport of
   the harness; a byte-granular transport only adds states in which the peer has seen a prefix of a frame.
 * `Notify` (`flush`): `notify_one` followed eventually by one `Flush` command through the same channel, hence ordered
   after every frame sent before the `notify_one` (`flushReq`, `doFlush`); notifications coalesce.
@@ -635,7 +637,9 @@ def stepWDo (s : State) : Option State :=
   | some .flush => some { s with wcur := none, flushed := s.wire.length }
   | some (.frame f) =>
     if !s.txReady then none else
-    some { s with wcur := none, wire := s.wire ++ [f], txSent := s.txSent + f.wireSize }
+    -- a transport that exerts back-pressure does not hold bytes back until a flush (a bounded pipe)
+    some { s with wcur := none, wire := s.wire ++ [f], txSent := s.txSent + f.wireSize,
+                  flushed := if s.txLimit.isSome then s.wire.length + 1 else s.flushed }
 
 /-- the transport does not take the frame: what was written before it reaches the peer -/
 def stepWBlock (s : State) : Option State :=
@@ -829,19 +833,28 @@ def candidates (first : List Event) (prio : List Key) (s : State) : List Event :
 def pick (first : List Event) (prio : List Key) (s : State) : Option (Event × State) :=
   (candidates first prio s).findSome? (fun e => (step? s e).map (fun s' => (e, s')))
 
-/-- run internal events until none is enabled (or the fuel runs out: `false`) -/
-def settle (first : List Event) (prio : List Key) : Nat → State → State × Bool
-  | 0, s => (s, false)
+/-- the senders that are at their `reserve` / `send` on the channel `write_send` right now: their step is enabled with
+the slot free and disabled with the slot taken -/
+def slotWanters (s : State) : List Event :=
+  let free := { s with chan := none }
+  let full := { s with chan := some Cmd.flush }
+  ((keysOf s).flatMap (fun k => [Event.writeStep k, .flushStep k, .closeData k, .closeFrame k, .sendOpen k]) ++ [Event.doFlush]).filter
+    (fun e => (step? free e).isSome && (step? full e).isNone)
+
+/-- the queue of suspended senders after a step: those who still wait keep their place, newcomers go to the back
+(tokio's semaphore is fair). Only kept while the transport exerts back-pressure; without it the slot is emptied at once
+and the order of the candidates decides. -/
+def requeue (q : List Event) (s : State) : List Event :=
+  if s.txLimit.isNone then [] else
+  let w := slotWanters s
+  q.filter (fun e => w.contains e) ++ w.filter (fun e => !q.contains e)
+
+/-- run internal events until none is enabled (or the fuel runs out: `false`); also returns the queue of suspended senders -/
+def settle (first : List Event) (prio : List Key) : Nat → State → State × List Event × Bool
+  | 0, s => (s, first, false)
   | fuel + 1, s =>
     match pick first prio s with
-    | none => (s, true)
-    | some (_, s') => settle first prio fuel s'
-
-/-- the senders that are suspended on the channel slot right now: their step is enabled as soon as the slot is free -/
-def slotWaiters (s : State) : List Event :=
-  if s.chan.isNone then [] else
-  let free := { s with chan := none }
-  ((keysOf s).flatMap (fun k => [Event.writeStep k, .flushStep k, .closeData k, .closeFrame k, .sendOpen k]) ++ [Event.doFlush]).filter
-    (fun e => (step? s e).isNone && (step? free e).isSome)
+    | none => (s, first, true)
+    | some (_, s') => settle (requeue first s') prio fuel s'
 
 end EraVerif.Model.Mux
